@@ -129,6 +129,20 @@ fn families(e: &Enc, tier: Tier, f: &mut dyn FnMut(&[u8], Option<usize>)) {
             }
         }
     }
+    // thorough: every 3-byte string (16.8 M per encoding), single call
+    if !q {
+        for a in 0..=255u8 {
+            // single-byte encodings are memoryless: the 1- and 2-byte strings already cover them
+            if matches!(e.kind, Kind::SingleByte(_) | Kind::UserDefined | Kind::Replacement) && a > 0 {
+                break;
+            }
+            for b in 0..=255u8 {
+                for c in 0..=255u8 {
+                    f(&[a, b, c], None);
+                }
+            }
+        }
+    }
     // (b) structured families
     match e.kind {
         Kind::EucJp => {
@@ -177,6 +191,16 @@ fn families(e: &Enc, tier: Tier, f: &mut dyn FnMut(&[u8], Option<usize>)) {
                 // every BMP four-byte pointer
                 for p in 0..39420u32 {
                     f(&gb_four(p), None);
+                }
+                // every well-formed four-byte form: 126 x 10 x 126 x 10
+                for first in 0x81..=0xFEu8 {
+                    for second in 0x30..=0x39u8 {
+                        for third in 0x81..=0xFEu8 {
+                            for fourth in 0x30..=0x39u8 {
+                                f(&[first, second, third, fourth], None);
+                            }
+                        }
+                    }
                 }
                 let mut p = 189000u32;
                 while p <= 1237575 {
